@@ -1,2 +1,201 @@
-(** C12 — placeholder while the pipeline is brought up *)
-From ZV Require Import Lib.Base Model.FsOps Model.FinishOps.
+(** C12 — A killed indexer leaves the old or the new index, never a mix.
+    Model: Model/FsOps.v (index directory, loader's view) + Model/FinishOps.v (the file-system program of one build:
+    temp files, Finish's rename loop in ANY order, the toDelete loop in ANY order, SetTombstone, failures of
+    individual operations, Finish's result).  Proofs: Proofs/FinishOps.v.
+
+    A run is  w ++ finish_ops b ro dl rf df tf :
+      w   phase W, ANY list of operations on temp names (parallel shard builders, partial/failed writes, clean-up);
+      ro  the order in which the rename loop visits the artifact map (a permutation of [artifacts b]);
+      dl  the order in which the delete loop visits toDelete (a permutation of [todel_after b ro rf]);
+      rf/df/tf  which renames / removals / steps of SetTombstone fail.
+    A crash (kill -9) after k operations leaves  apply_ops (firstn k run) (fs0 b);  [visible] is what a searcher
+    loading the directory sees.  [ff_run] = fault-free run whose phase W produced every temp file completely. *)
+From ZV Require Import Lib.Base Model.FsOps Model.FinishOps Proofs.FinishOps Generated.FinishSites.
+From Coq Require Import Permutation.
+
+(** (1) Everything written before the rename loop is invisible: whatever phase W does (including partial writes and
+    failures) and wherever it is killed, a searcher sees exactly the old index — in particular never a truncated shard. *)
+Theorem C12_kill_while_writing_shows_old : forall b w rest k,
+  forallb tmp_only w = true -> k <= length w ->
+  view_eq (visible (apply_ops (firstn k (w ++ rest)) (fs0 b))) (view_old b).
+Proof. exact before_install_old. Qed.
+Print Assumptions C12_kill_while_writing_shows_old.
+
+(** (2) Single-artifact installs (one new shard replacing at most one old shard without sidecar, non-delta) are atomic:
+    at EVERY crash point the view is the old or the new index. *)
+Theorem C12_atomic_single : forall b w ro dl k,
+  single_artifact b -> ff_run b w ro dl ->
+  view_eq (visible (state_at b w ro dl k)) (view_old b) \/ view_eq (visible (state_at b w ro dl k)) (view_new b).
+Proof. exact atomic_single. Qed.
+Print Assumptions C12_atomic_single.
+
+(** (3) Every build (any number of old/new shards, delta sidecars, compound shard), every rename/delete order, every
+    crash point: no file under a name the loader reads is ever partially written ... *)
+Theorem C12_no_truncated_visible : forall b w ro dl k x,
+  ff_run b w ro dl -> is_tmp x = false -> state_at b w ro dl k x <> Some Partial.
+Proof. exact no_partial_any. Qed.
+Print Assumptions C12_no_truncated_visible.
+
+(** ... and a repository that was indexed before is never missing: its shard 0 exists or it is still alive in its
+    compound shard. *)
+Theorem C12_repo_never_missing : forall b w ro dl k,
+  build_wf b -> ff_run b w ro dl -> (0 < b_nold b \/ b_comp b = true) -> served (state_at b w ro dl k).
+Proof. exact never_missing_any. Qed.
+Print Assumptions C12_repo_never_missing.
+
+(** (4) Deletions come after renames: in every run (any faults) each removal / tombstoning of an old file happens
+    after every install rename. *)
+Theorem C12_deletes_after_renames : forall b ro dl rf df tf i j o1 o2,
+  (forall a, In a ro -> In a (artifacts b)) ->
+  nth_error (finish_ops b ro dl rf df tf) i = Some o1 -> is_removal o1 = true ->
+  nth_error (finish_ops b ro dl rf df tf) j = Some o2 -> is_install_rename o2 = true ->
+  j < i.
+Proof. exact deletes_after_renames. Qed.
+Print Assumptions C12_deletes_after_renames.
+
+(** (5) A mix can only be observed strictly inside the install window: killed at or before the first rename the view
+    is the old index, after the last operation it is the new one. *)
+Theorem C12_mix_only_inside_install_window : forall b w ro dl k,
+  build_wf b -> ff_run b w ro dl ->
+  (k <= length w -> view_eq (visible (state_at b w ro dl k)) (view_old b)) /\
+  (length (run_ops b w ro dl) <= k -> view_eq (visible (state_at b w ro dl k)) (view_new b)).
+Proof.
+  intros b w ro dl k Hwf H. split; intro Hk.
+  - unfold state_at, run_ops. apply before_install_old; [apply (ff_w _ _ _ _ H) | exact Hk].
+  - unfold state_at. rewrite firstn_all2 by exact Hk. apply complete_run_new; assumption.
+Qed.
+Print Assumptions C12_mix_only_inside_install_window.
+
+(** (6) A run that reports success has installed the complete new index — for every build, every order and EVERY
+    combination of failing renames / removals / SetTombstone steps (current code: `if err != nil { b.buildError = err }`). *)
+Theorem C12_success_complete : forall b w ro dl rf df tf,
+  build_wf b -> forallb tmp_only w = true -> tmps_ready b (apply_ops w (fs0 b)) ->
+  Permutation ro (artifacts b) -> Permutation dl (todel_after b ro rf) ->
+  finish_err b ro dl rf df tf = false ->
+  view_eq (visible (apply_ops (w ++ finish_ops b ro dl rf df tf) (fs0 b))) (view_new b).
+Proof. exact success_complete. Qed.
+Print Assumptions C12_success_complete.
+
+(** ... which was false before the repair d380a28 (`b.buildError = err` after SetTombstone overwrote an earlier error):
+    repository alive in a compound shard, the rename of its new shard fails, SetTombstone succeeds => success reported,
+    the repository is tombstoned and its new shard is missing. *)
+Theorem C12_success_complete_before_fix_refuted : exists b w ro dl rf df tf,
+  build_wf b /\ forallb tmp_only w = true /\ tmps_ready b (apply_ops w (fs0 b)) /\
+  Permutation ro (artifacts b) /\ Permutation dl (todel_after b ro rf) /\
+  finish_err_before_fix b ro dl rf df tf = false /\
+  ~ view_eq (visible (apply_ops (w ++ finish_ops b ro dl rf df tf) (fs0 b))) (view_new b).
+Proof.
+  exists (mkBuild false 0 [] 1 true false true), (write_phase (mkBuild false 0 [] 1 true false true)),
+         [Shard (SReg 0)], [Shard SComp], (fun x => name_eqb x (Shard (SReg 0))), nofault, TNone.
+  repeat split.
+  - intro. cbn. lia.
+  - intro H. discriminate.
+  - intros a [<-|[]]. reflexivity.
+  - apply Permutation_refl.
+  - apply Permutation_refl.
+  - intro H. specialize (H (SReg 0)). vm_compute in H. discriminate.
+Qed.
+Print Assumptions C12_success_complete_before_fix_refuted.
+
+(** (7) The full statement "at every crash point old or new" is FALSE as soon as a build installs more than one
+    artifact — inherent in renaming N files one by one (known finding, keyed by the rename-loop window). *)
+Definition atomic_everywhere (b : build) : Prop := forall w ro dl k,
+  ff_run b w ro dl ->
+  view_eq (visible (state_at b w ro dl k)) (view_old b) \/ view_eq (visible (state_at b w ro dl k)) (view_new b).
+
+(** two shards rebuilt as two shards, killed after the first rename: new shard 0 next to old shard 1 *)
+Theorem C12_atomic_multi_refuted : exists b, build_wf b /\ ~ atomic_everywhere b.
+Proof.
+  exists (mkBuild false 2 [] 2 false false false). split; [split; intro; cbn; (lia || discriminate)|].
+  intro Hat. specialize (Hat (write_phase (mkBuild false 2 [] 2 false false false)) [Shard (SReg 0); Shard (SReg 1)] [] 9).
+  destruct Hat as [Hv|Hv].
+  - constructor; [reflexivity | | apply Permutation_refl | apply Permutation_refl].
+    intros a Ha. cbn in Ha. repeat (destruct Ha as [<-|Ha]; [reflexivity|]). contradiction.
+  - specialize (Hv (SReg 0)). vm_compute in Hv. discriminate.
+  - specialize (Hv (SReg 1)). vm_compute in Hv. discriminate.
+Qed.
+Print Assumptions C12_atomic_multi_refuted.
+
+(** delta build over one shard, killed between the rename of the new shard and the rename of the old shard's sidecar:
+    the changed file is visible in both versions *)
+Theorem C12_atomic_delta_refuted : exists b, build_wf b /\ b_delta b = true /\ ~ atomic_everywhere b.
+Proof.
+  assert (H : exists b, build_wf b /\ ~ atomic_everywhere b /\ b_delta b = true).
+  { cut (exists b, (build_wf b /\ ~ atomic_everywhere b) /\ b_delta b = true); [intros (b & (A & B) & C); eauto|].
+    exists (mkBuild true 1 [] 1 false false false). split; [|reflexivity].
+    split; [split; intro; cbn; (lia || discriminate)|].
+    intro Hat. specialize (Hat (write_phase (mkBuild true 1 [] 1 false false false)) [Shard (SReg 1); Meta (SReg 0)] [] 8).
+    destruct Hat as [Hv|Hv].
+    - constructor; [reflexivity | | apply Permutation_refl | apply Permutation_refl].
+      intros a Ha. cbn in Ha. repeat (destruct Ha as [<-|Ha]; [reflexivity|]). contradiction.
+    - specialize (Hv (SReg 1)). vm_compute in Hv. discriminate.
+    - specialize (Hv (SReg 0)). vm_compute in Hv. discriminate. }
+  destruct H as (b & A & B & C). exists b. auto.
+Qed.
+Print Assumptions C12_atomic_delta_refuted.
+
+(** ONE new shard over ONE old shard that carries a sidecar (left by a delta build or a metadata update): killed after
+    the rename and before the stale sidecar is removed, the NEW shard is read through the OLD sidecar (stale file
+    tombstones and branch versions) — the delete-loop window. *)
+Theorem C12_atomic_stale_sidecar_refuted : exists b, build_wf b /\ b_nnew b = 1 /\ b_nold b = 1 /\ ~ atomic_everywhere b.
+Proof.
+  exists (mkBuild false 1 [0] 1 false false false). split; [split; intro; cbn; (lia || discriminate)|]. split; [reflexivity|]. split; [reflexivity|].
+  intro Hat. specialize (Hat (write_phase (mkBuild false 1 [0] 1 false false false)) [Shard (SReg 0)] [Meta (SReg 0)] 5).
+  destruct Hat as [Hv|Hv].
+  - constructor; [reflexivity | | apply Permutation_refl | apply Permutation_refl].
+    intros a Ha. cbn in Ha. repeat (destruct Ha as [<-|Ha]; [reflexivity|]). contradiction.
+  - specialize (Hv (SReg 0)). vm_compute in Hv. discriminate.
+  - specialize (Hv (SReg 0)). vm_compute in Hv. discriminate.
+Qed.
+Print Assumptions C12_atomic_stale_sidecar_refuted.
+
+(** (8) Tie to the source: the order of the file-system call sites (and of the guarded assignments to b.buildError) that
+    translator/finishops extracts from index/builder.go and index/tombstones.go is the one the model encodes.
+    Moving the delete loop before the rename loop, adding a mutation, or dropping the error guard breaks this. *)
+Theorem C12_finish_sites_match_model : finish_sites = expected_sites.
+Proof. vm_compute. reflexivity. Qed.
+Print Assumptions C12_finish_sites_match_model.
+
+(** ---- non-vacuity: concrete fault-free runs satisfying the hypotheses *)
+Ltac perm_conc :=
+  vm_compute; apply NoDup_Permutation;
+  [ repeat constructor; cbn; intuition discriminate
+  | repeat constructor; cbn; intuition discriminate
+  | intro x; cbn; intuition ].
+Ltac ready_conc := let a := fresh "a" in let Ha := fresh "Ha" in
+  intros a Ha; cbn in Ha; repeat (destruct Ha as [<-|Ha]; [reflexivity|]); contradiction.
+
+Example C12_nonvacuous_full_over_delta :   (* 3 old shards, two with sidecars, rebuilt as 2 shards; renames and deletes in "random" order *)
+  let b := mkBuild false 3 [0; 2] 2 false false false in
+  build_wf b /\
+  ff_run b (write_phase b) [Shard (SReg 1); Shard (SReg 0)] [Meta (SReg 2); Shard (SReg 2); Meta (SReg 0)] /\
+  view_codes 5 (state_at b (write_phase b) [Shard (SReg 1); Shard (SReg 0)] [Meta (SReg 2); Shard (SReg 2); Meta (SReg 0)] 11)
+    = [(1, 2, 1); (2, 2, 0); (3, 1, 0)]%N   (* renames done, one stale file removed: new 0 under OLD sidecar, new 1, old 2 *) /\
+  view_codes 5 (apply_ops (run_ops b (write_phase b) [Shard (SReg 1); Shard (SReg 0)] [Meta (SReg 2); Shard (SReg 2); Meta (SReg 0)]) (fs0 b))
+    = [(1, 2, 0); (2, 2, 0)]%N.
+Proof.
+  cbv zeta. split; [split; intro; cbn; (lia || discriminate)|]. split; [|split; vm_compute; reflexivity].
+  constructor; [reflexivity | ready_conc | perm_conc | perm_conc].
+Qed.
+
+Example C12_nonvacuous_delta :
+  let b := mkBuild true 2 [1] 1 false false false in
+  build_wf b /\ ff_run b (write_phase b) [Meta (SReg 1); Shard (SReg 2); Meta (SReg 0)] [] /\
+  view_codes 4 (apply_ops (run_ops b (write_phase b) [Meta (SReg 1); Shard (SReg 2); Meta (SReg 0)] []) (fs0 b))
+    = [(1, 1, 2); (2, 1, 2); (3, 2, 0)]%N.
+Proof.
+  cbv zeta. split; [split; intro; cbn; (lia || discriminate)|]. split; [|vm_compute; reflexivity].
+  constructor; [reflexivity | ready_conc | perm_conc | apply Permutation_refl].
+Qed.
+
+Example C12_nonvacuous_compound_with_faults :   (* success_complete's hypotheses with a failing run: error reported *)
+  let b := mkBuild false 0 [] 2 true true true in
+  build_wf b /\ ff_run b (write_phase b) [Shard (SReg 1); Shard (SReg 0)] [Meta SComp; Shard SComp] /\
+  finish_err b [Shard (SReg 1); Shard (SReg 0)] [Meta SComp; Shard SComp] (fun x => name_eqb x (Shard (SReg 0))) nofault TNone = true /\
+  finish_err b [Shard (SReg 1); Shard (SReg 0)] [Meta SComp; Shard SComp] nofault nofault TNone = false /\
+  view_codes 3 (apply_ops (run_ops b (write_phase b) [Shard (SReg 1); Shard (SReg 0)] [Meta SComp; Shard SComp]) (fs0 b))
+    = [(0, 1, 2); (1, 2, 0); (2, 2, 0)]%N.
+Proof.
+  cbv zeta. split; [split; intro; cbn; (lia || discriminate)|]. split; [|repeat split; vm_compute; reflexivity].
+  constructor; [reflexivity | ready_conc | perm_conc | perm_conc].
+Qed.
